@@ -70,7 +70,7 @@ def gen_case(rng, tr):
             else:
                 ops.append([kind, pay, asbytes])
         elif tr == 'pty':
-            ops.append(rng.choice([['sendcontrol', rng.choice('cdgz[@')], ['sendeof'], ['sendintr']]))
+            ops.append(rng.choice([['sendcontrol', rng.choice('cdgzCG[@]^_?\\`{|}~')], ['sendeof'], ['sendintr']]))
     return {'tr': tr, 'enc': enc, 'logs': logs, 'shared': shared, 'ops': ops}
 
 
@@ -166,7 +166,7 @@ def one(case, acc):
                 sent(api('').join(api(s) for s in op[1]), j0)
             elif k == 'sendcontrol':
                 c.sendcontrol(op[1])
-                b = bytes([CTRL[op[1]]])
+                b = bytes([CTRL[op[1].lower()]])
                 sent(b.decode(enc, 'replace') if enc else b, j0)
             elif k == 'sendeof':
                 c.sendeof()
